@@ -31,9 +31,11 @@ structure Verdict where
   what : String := ""
   tags : List String := []       -- coverage tags
   size : Nat := 0                -- e.g. number of events replayed
+  fails : List String := []      -- every property-predicate failure, "Cxx: what"
 
 def Verdict.toJson (v : Verdict) : Json :=
   Json.mkObj [("case", v.case), ("verdict", v.kind), ("props", Json.arr (v.props.map Json.str).toArray),
-              ("what", v.what), ("tags", Json.arr (v.tags.map Json.str).toArray), ("size", v.size)]
+              ("what", v.what), ("tags", Json.arr (v.tags.map Json.str).toArray), ("size", v.size),
+              ("fails", Json.arr (v.fails.map Json.str).toArray)]
 
 end Driver
